@@ -3,6 +3,7 @@
 From BT Require Import Base.Util.
 From BT Require Model.Merge Model.Fill Model.MergeTool Proofs.MergeSig Proofs.MergeInto Proofs.MergeWin Proofs.MergeMany
   Proofs.FillOk Proofs.MergeToolOk Proofs.MergeToolRun Generated.Consts Properties.C15.
+From BT Require Model.Entry_C15.
 
 Module PinC15.
 Import Model.Merge Model.Fill Model.MergeTool Proofs.MergeSig Proofs.MergeInto Proofs.MergeWin Proofs.MergeMany
@@ -14,6 +15,8 @@ Check (C15_merge_into : forall one two,
   exists r, merge_into one two = Ok r /\
     sorted_from (N.min (v_start one) (v_start two)) (pieces r) /\
     forall x, sig (pieces r) x = if cov [one; two] x then Some (sigz [one; two] x) else None).
+Check (C15_value_codec_roundtrip : forall z : Z,
+  (Z.abs z < 2 ^ 24)%Z -> Model.Entry_C15.eighths_of_bits (Model.Entry_C15.bits_of8 z) = Some z).
 Check (C15_merge_into_no_overlap : forall one two,
   v_end one <= v_start two \/ v_end two <= v_start one -> merge_into one two = Panic).
 Check (C15_merge_many : forall W vss, 0 < W -> Forall (sorted_from 0) vss ->
